@@ -289,6 +289,34 @@ def run(report, p):
                         bad.append("absolute recorded path (set_of_file_paths joins the history root)")
                 r2.check(not bad, f, call, f"ignore patterns are matched against a path containing the absolute location ({', '.join(sorted(set(bad)))[:160]}): ancestors matching a pattern change the result", witness=show(pr.origins(call.args[0], f)[0])[:300])
 
+    # the base of that relpath: in the traversal the pattern root defaults to the start folder and is otherwise the caller's root
+    from sa.absint import OBJ, UNKNOWN, Evaluator, Obj
+
+    for fq, f in p.funcs.items():
+        if f.module.name in unshipped or not f.is_generator():
+            continue
+        dfl = f.param_defaults()
+        rels = [n for n in walk_no_nested(f.node) if isinstance(n, ast.Call) and norm(n.func) == "os.path.relpath" and len(n.args) == 2 and isinstance(n.args[1], ast.Name) and n.args[1].id in dfl and isinstance(dfl[n.args[1].id], ast.Constant) and dfl[n.args[1].id].value is None]
+        for rc in rels:
+            rootp = rc.args[1].id
+            r2.instance(f, rc, f"pattern root `{rootp}` of {f.name}")
+            prelude = []
+            for st in f.node.body:
+                if isinstance(st, (ast.For, ast.While)) or any(x is rc for x in ast.walk(st)):
+                    break
+                prelude.append(st)
+            top_obj, root_obj = Obj(), Obj()
+            okb = True
+            for given, want in ((None, top_obj), (root_obj, root_obj)):
+                ev = Evaluator(lambda e, env: None, fq)
+                try:
+                    outs = ev.run(prelude, {f.params[0]: top_obj, rootp: given})
+                except AnalysisError:
+                    outs = []
+                vals = {id(e2.get(rootp, UNKNOWN)) for e2, o in outs if o is None}
+                okb = okb and vals == {id(want)}
+            r2.check(okb, f, rc, f"the folder the ignore patterns are relative to (`{rootp}`) is not 'the start folder when none is given, else the given root': paths are matched relative to the current working directory or to a sub-folder", construct=f"pattern root default of {f.name}")
+
     # ------------------------------------------------------------------ R13.3
     r3 = report.rule(
         "R13.3",
